@@ -1267,6 +1267,9 @@ where
                 State::Incomplete => "Incomplete",
                 State::Positioned => "Positioned",
                 State::Finished => "Finished",
+                // a state added later must not stop the monitoring build
+                #[allow(unreachable_patterns)]
+                _ => "Other",
             },
             buf_len: self.get_buf().len(),
             capacity: self.buf_reader.capacity(),
